@@ -51,39 +51,7 @@ MAYBE_NONE = {'make_and', 'derive_symbol'}
 INT_FUNCS = {'int', 'len', 'get_bv_width', 'abs', 'min', 'max', 'sum'}
 
 
-def _none_def_reaches(f, st, use, name):
-    """Can the definition ``name = None`` (statement st) reach the use
-    without passing a rebinding of name or a branch that refutes
-    "name is None"?"""
-    from ..cfg import cfg_of, expr_owner_node, stmt_effects
-    cfg = cfg_of(f)
-    d = cfg.node_of.get(id(st))
-    u = expr_owner_node(cfg, use)
-    if d is None or u is None:
-        return True
-    refute = {(f'{name} is None', False), (f'{name} is not None', True),
-              (name, True)}
-    from ..cfg import fact_key
-    seen = {d}
-    work = [d]
-    while work:
-        n = work.pop()
-        for e in n.succ:
-            if e.kind == 'exc':
-                continue
-            if any(fact_key(x, p) in refute for (x, p) in e.facts):
-                continue
-            t = e.dst
-            if t is u:
-                return True
-            if t in seen:
-                continue
-            seen.add(t)
-            bound, _ = stmt_effects(t)
-            if name in bound:
-                continue
-            work.append(t)
-    return False
+from ..cfg import none_def_reaches as _none_def_reaches
 
 
 class Abs:
